@@ -69,6 +69,10 @@ def dispatch(vm, m, c, args):
         if n == 'enumerate':
             it = to_iter(vm, m, args[0])
             return ret(m, Iter(it.items, it.stages + (('enumerate', 0),)))
+        if n in ('skip', 'take') and isinstance(args[1], int):
+            it = to_iter(vm, m, args[0])
+            if any(st[0] in ('filter_map', 'enumerate') for st in it.stages): raise Unmodelled('%s after a filtering/enumerating stage' % n)
+            return ret(m, Iter(it.items[args[1]:] if n == 'skip' else it.items[:args[1]], it.stages))
         if n == 'rev':
             it = to_iter(vm, m, args[0])
             if it.stages: raise Unmodelled('rev of mapped iterator')
